@@ -240,8 +240,17 @@ func (c *Ctx) ErrFlow(include, armed func(*ssa.Function) bool) []core.Ob {
 				if !ok {
 					continue
 				}
-				if _, isDefer := in.(*ssa.Defer); isDefer {
-					continue // deferred Close etc.: accepted idiom
+				if df, isDefer := in.(*ssa.Defer); isDefer {
+					// deferred Close of something read from: accepted idiom. A deferred call that
+					// completes pending output (Flush of a buffered writer, Close/Flush of a
+					// compressing writer) is where the write errors surface, and deferred they go nowhere.
+					if what := deferredCompletion(df); what != "" {
+						perCallee["defer "+what]++
+						obs = append(obs, core.Ob{Rule: "R-ERRFLOW", Key: fmt.Sprintf("%s#defer %s@%d:error-used", fname, what, perCallee["defer "+what]), Pos: c.P.Pos(df.Pos()), Func: fname, Armed: armed(fn), Status: core.Violated,
+							Want: "the call that completes buffered output is not deferred with its error dropped",
+							Got:  "defer " + what + ": the error of the final write cannot reach the caller, a failed write is reported as success"})
+					}
+					continue
 				}
 				if _, isGo := in.(*ssa.Go); isGo {
 					continue
@@ -300,6 +309,25 @@ func (c *Ctx) ErrFlow(include, armed func(*ssa.Function) bool) []core.Ob {
 				obs = append(obs, o)
 				if !used || errv == nil {
 					continue
+				}
+				// ---- E3: a short read is not forgiven: the error of io.ReadFull / io.ReadAtLeast / io.CopyN
+				// (io.EOF there means "nothing arrived although something was expected") is not compared
+				// with io.EOF on a path that then returns a nil error
+				if exactRead(cc) {
+					ne := 0
+					for _, r := range *errv.Referrers() {
+						edge := eofEdge(r, errv)
+						if edge == nil {
+							continue
+						}
+						ne++
+						e3 := core.Ob{Rule: "R-ERRFLOW", Key: fmt.Sprintf("%s#%s@%d:eof-not-forgiven%d", fname, short, k, ne), Pos: c.P.Pos(instrPos(r)), Func: fname, Armed: armed(fn), Status: core.OK,
+							Want: "where the error of " + short + " is found to be io.EOF (fewer bytes than asked for arrived), the function still fails"}
+						if why := errEdgeReturnsNil(fn, edge, errv); why != "" {
+							e3.Status, e3.Got = core.Violated, "end of input during an exact-length read is treated as success: "+why
+						}
+						obs = append(obs, e3)
+					}
 				}
 				// ---- E2: err != nil edge must return a non-nil error
 				for _, r := range *errv.Referrers() {
@@ -490,4 +518,86 @@ func nonNilErrorFrom(v, errv ssa.Value, depth int) bool {
 		return false
 	}
 	return false
+}
+
+// deferredCompletion: the deferred call is Flush on a *bufio.Writer or Close/Flush on a compressing writer.
+func deferredCompletion(df *ssa.Defer) string {
+	cc := df.Common()
+	if errResultIndex(df) < 0 {
+		return ""
+	}
+	var recv types.Type
+	name := ""
+	if cc.IsInvoke() {
+		return ""
+	}
+	g := cc.StaticCallee()
+	if g == nil || g.Signature.Recv() == nil {
+		// a bound method value: defer w.Flush() compiles to a static call with the receiver as first argument
+		return ""
+	}
+	recv, name = g.Signature.Recv().Type(), g.Name()
+	switch recv.String() {
+	case "*bufio.Writer", "*bufio.ReadWriter":
+		if name == "Flush" {
+			return "(*bufio.Writer).Flush"
+		}
+	case "*compress/zlib.Writer", "*compress/gzip.Writer", "*compress/flate.Writer":
+		if name == "Close" || name == "Flush" {
+			return "(" + recv.String() + ")." + name
+		}
+	}
+	return ""
+}
+
+// exactRead: io.ReadFull, io.ReadAtLeast, io.CopyN.
+func exactRead(cc *ssa.CallCommon) bool {
+	g := cc.StaticCallee()
+	if g == nil || g.Pkg == nil || g.Pkg.Pkg.Path() != "io" || g.Signature.Recv() != nil {
+		return false
+	}
+	return g.Name() == "ReadFull" || g.Name() == "ReadAtLeast" || g.Name() == "CopyN"
+}
+
+// eofEdge: r compares errv with io.EOF (==, != or errors.Is) and feeds a branch;
+// returns the block entered when the error IS io.EOF.
+func eofEdge(r ssa.Instruction, errv ssa.Value) *ssa.BasicBlock {
+	isEOF := func(v ssa.Value) bool {
+		ld, ok := v.(*ssa.UnOp)
+		if !ok || ld.Op != token.MUL {
+			return false
+		}
+		g, ok := ld.X.(*ssa.Global)
+		return ok && g.Pkg != nil && g.Pkg.Pkg.Path() == "io" && g.Name() == "EOF"
+	}
+	var cond ssa.Value
+	eq := true
+	switch x := r.(type) {
+	case *ssa.BinOp:
+		if (x.Op != token.EQL && x.Op != token.NEQ) || !(isEOF(x.X) || isEOF(x.Y)) {
+			return nil
+		}
+		cond, eq = x, x.Op == token.EQL
+	case *ssa.Call:
+		g := x.Common().StaticCallee()
+		if g == nil || g.Pkg == nil || g.Pkg.Pkg.Path() != "errors" || g.Name() != "Is" || len(x.Common().Args) != 2 || !isEOF(x.Common().Args[1]) {
+			return nil
+		}
+		cond = x
+	default:
+		return nil
+	}
+	refs := cond.Referrers()
+	if refs == nil {
+		return nil
+	}
+	for _, u := range *refs {
+		if iff, ok := u.(*ssa.If); ok {
+			if eq {
+				return iff.Block().Succs[0]
+			}
+			return iff.Block().Succs[1]
+		}
+	}
+	return nil
 }
